@@ -63,6 +63,9 @@ func (SlidingWindow) New(cfg Config) fiber.Handler {
 			// the next request and not show the correct expiry.
 			elapsed := ts - e.exp
 			if elapsed >= expiration {
+				// A whole window passed without a request (the storage kept the entry longer than
+				// asked, or its last write came late): the old hits are outside every sliding window
+				e.prevHits = 0
 				e.exp = ts + expiration
 			} else {
 				e.exp = ts + expiration - elapsed
